@@ -784,6 +784,9 @@ func runBench(c Case) lib.Result {
 		if ch.Row != 0 || ch.Col != 0 {
 			tags["row-or-column-nonzero"] = true
 		}
+		if ch.Rows != c.Chans[0].Rows || ch.Cols != c.Chans[0].Cols {
+			tags["array-size-differs-between-channels"] = true
+		}
 	}
 	tb := 1.0 / rate
 	tbm, tbe := dec7OfFloat(tb)
